@@ -716,6 +716,19 @@ mut("ok-rec-edges-filter", "benign", [], "the edge loop filters null edges with 
             }
 """, """        for next in outgoings.drain(..).filter(|next| !next.is_null()) {
 """)])
+mut("ty-new-snapshot-source", "break", ["C02"], "a new public method hands out a strong Snapshot from a Weak without any trace",
+    [ed(W, """    pub fn snapshot<'g>(&self, guard: &'g Guard) -> WeakSnapshot<'g, T> {
+        WeakSnapshot::from_raw(self.ptr, guard)
+    }
+""", """    pub fn snapshot<'g>(&self, guard: &'g Guard) -> WeakSnapshot<'g, T> {
+        WeakSnapshot::from_raw(self.ptr, guard)
+    }
+
+    /// Peeks at the referent without counting it.
+    pub fn peek<'g>(&self, guard: &'g Guard) -> Snapshot<'g, T> {
+        Snapshot::from_raw(self.ptr, guard)
+    }
+""")], ["TY-SIG"])
 mut("rec-collect-reentrant", "break", ["C07"], "unpin collects even while a collection is running (flag not tested)",
     [ed(I, "if guard_count == 1 && !self.collecting.get() && !THREAD_COLLECTING.with(Cell::get) {", "if guard_count == 1 {")], ["REC-COLLECT-REENTRY"])
 mut("rec-collecting-cleared-in-schedule", "break", ["C07"], "schedule_collection clears the collecting flag",
